@@ -577,7 +577,7 @@ func TestVerifC01(t *testing.T) {
 	perWorld := verifkit.N(14, 40)
 	n := 0
 	for wi := 0; wi < nWorlds; wi++ {
-		w := vNewWorld(r.Fork(), fmt.Sprintf("c01w%d", wi))
+		w := vNewWorldOpt(r.Fork(), fmt.Sprintf("c01w%d", wi), true)
 		// log key: RSA-2048, P-256 or P-384
 		lk := keys[[]int{0, 1, 2, 3, 12, 13}[r.Intn(6)]]
 		lg := c01NewLog(out, lk, w.roots, fmt.Sprintf("log%d(%s)", wi, lk.kind))
